@@ -136,7 +136,7 @@ static int cmd_sweep(int argc, char** argv)
         uint64_t i = start + k * stride;
         printf("BEGIN %llu\n", (unsigned long long)i);
         fflush(stdout);
-        Plan p = generate_plan(profile, run_seed(seed, profile, i));
+        Plan p = generate_plan(profile, run_seed(seed, profile, i), i);
         Json res = run_plan(p, false);
         res.set("run", (long long)i);
         res.set("profile", profile);
@@ -194,7 +194,7 @@ static int cmd_gen(int argc, char** argv)
         else if (a == "--run")
             run = strtoull(next().c_str(), nullptr, 10);
     }
-    Plan p = generate_plan(profile, run_seed(seed, profile, run));
+    Plan p = generate_plan(profile, run_seed(seed, profile, run), run);
     printf("%s\n", p.to_json().str().c_str());
     return 0;
 }
